@@ -105,7 +105,7 @@ def run(ck):
                    "real MPI reduction (comm.Allreduce) is not executed; only the index partition is checked"]
     ck.assumptions += ["mpi4py absent: a parallel region is simulated by setting size/rank/parallel_level on the Manager's DistributedConfiguration"]
     ok = extract(ck)
-    ck.prove(PROPS, extra_modules=["QV.Drive.C20"])
+    ck.prove(PROPS, extra_modules=["QV.Drive.C20"], also=["QV.Props.C20Regions"])
 
     # ---- cases ------------------------------------------------------------
     triples = []
@@ -304,6 +304,34 @@ def run(ck):
                 if flat != list(range(11)) or set(levels) != {0, 1} or levels[0::2] != [1] * size:
                     ck.fail("nested-regions:level", "after a nested parallel region was closed the outer region no longer distributes its range over the processes "
                             "(or the nesting level is not back where it was)", {"size": size, "nested_depth": depth_in}, [blocks, levels], [list(range(11)), "levels 1 then 0"])
+        # random properly nested programs of regions, with and without a communicator: level, region count and whether the range helper
+        # shares the work after every start / finish, compared with the Lean model (QV/Model/C20Regions.lean)
+        def nested_prog(depth):
+            out = []
+            for _ in range(ck.rng.randint(1, 2)):
+                out.append("s")
+                if depth < 3 and ck.rng.random() < 0.6:
+                    out += nested_prog(depth + 1)
+                out.append("f")
+            return out
+        for hreg in range(ck.n(12, 120)):
+            active = hreg % 3 != 2
+            prog = nested_prog(0)
+            lvl0 = 0 if active else ck.rng.choice([0, 1, 2])
+            cfg.__dict__.clear(); cfg.__dict__.update(saved_d)
+            cfg.have_mpi = active; cfg.size = 3; cfg.rank = 0; cfg.comm = _Comm(); cfg.parallel_level = lvl0; cfg.parallel_region = 0
+            seen = []
+            for o_ in prog:
+                par.start_parallel_region() if o_ == "s" else par.close_parallel_region()
+                # (outside every region the helpers are not to be called: the flag is then the level rule itself)
+                shares = (len(list(par.block_distributed_range(0, 5))) < 5) if cfg.parallel_region > 0 else (int(cfg.parallel_level) == 1)
+                seen.append("%d:%d:%d" % (int(cfg.parallel_level), int(cfg.parallel_region), 1 if shares else 0))
+            ck.case(("regions", active, lvl0, tuple(prog)), nontrivial=("s s" in " ".join(prog)), kind="api:nested-regions", size=3)
+            lines.append("regions %d %d 0 %s" % (1 if active else 0, lvl0, " ".join(prog)))
+            impl_out.append(" ".join(seen))
+            if (int(cfg.parallel_level), int(cfg.parallel_region)) != (lvl0, 0):
+                ck.fail("nested-regions:level", "a properly nested program of parallel regions does not bring the nesting level / region count back",
+                        {"program": prog, "communicator": active, "level_at_start": lvl0}, [int(cfg.parallel_level), int(cfg.parallel_region)], [lvl0, 0])
     except Exception as e:
         ck.fail("raises:nested-regions", "nested parallel regions raised %r" % (e,), {})
     finally:
